@@ -296,6 +296,7 @@ func main() {
 		run(e, m, c)
 		return
 	}
+	witnessModel = m
 	leftMergeWitness(e)
 	nullKeyPanicWitness(e)
 	for _, raw := range e.CorpusCases() {
@@ -311,6 +312,8 @@ func main() {
 		run(e, m, gen(e.Rng))
 	}
 }
+
+var witnessModel *hx.Model
 
 const leftMergeKey = "mergejoin/left-outer-equal-left-keys-lose-lookahead"
 
@@ -336,6 +339,24 @@ func leftMergeWitness(e *hx.Env) {
 		d, g := s.Exec(c.Queries[0]), mem.Exec(c.Queries[0])
 		rd, rg := render(d, false), render(g, false)
 		e.Rep.Hit("witness:left-merge-join:" + fmt.Sprint(rd == rg))
+		// the left-outer state machine of the model (Model/QueryLeft.lean) must give dolt's answer, right or wrong
+		if witnessModel != nil && d.Err == nil {
+			var got []string
+			for _, row := range d.Rows {
+				x := row[1]
+				if x == "NULL" {
+					x = "N"
+				}
+				got = append(got, row[0]+":"+x)
+			}
+			sort.Strings(got)
+			resp := witnessModel.Ask("lmerge 2,1;2,47;3,25 2,2;3,3 3")
+			mod := strings.Split(resp, ";")
+			sort.Strings(mod)
+			if strings.Join(mod, ";") != strings.Join(got, ";") {
+				e.Rep.Disagree(c, strings.Join(got, ";"), strings.Join(mod, ";"), "left outer merge join: dolt vs the model's state machine on the witness")
+			}
+		}
 		if rd != rg {
 			e.Rep.Violate(leftMergeKey, fmt.Sprintf("left outer merge join loses a match: %q returns %s, reference %s", c.Queries[0],
 				strings.ReplaceAll(rd, "\n", " ; "), strings.ReplaceAll(rg, "\n", " ; ")), c)
